@@ -10,13 +10,29 @@ Proved here, about `Model/RectClip.lean` and the definitions *generated* from cl
 * every `do { AddCorner … } while (prev != loc)` loop runs at most 4 (3 if `prev ≠ loc`) steps and never indexes
   `rect_as_path_` out of range when neither location is `Inside` (`corner_loops_terminate`), and would never
   terminate if the target were `Inside` (`corner_loop_diverges_on_inside`).
-Not modelled, hence not proved: the crossing automaton of `RectClip64::ExecuteInternal`, `CheckEdges`, `TidyEdges`,
-`GetPath`.  The winding-number statement of the property is checked on the real code by the exact judge
-`RECTCLIPCHECK` (Driver/C08.lean) only.
+* the location / corner automaton `RectClip64::ExecuteInternal` (model `Model/RectClipAuto.lean`, tied to the code bit
+  for bit by the `RCAUTO` records: raw result ring and `start_locs_` read before `CheckEdges` runs), second half of
+  this file: provenance of every point passed to `Add` (`added_points_provenance`), hence containment in the
+  rectangle (`added_points_in_rect`, `raw_ring_in_rect`) and "new vertices lie on the boundary"
+  (`new_vertices_on_boundary`) under the arithmetic hypotheses of C09 — `NoLostCrossingA` is needed
+  (`raw_ring_needs_hyp`, the known finding kf.lost_crossing); no `path[i]` is ever read out of range
+  (`executeInternal_no_path_fault`); termination within `2n+2` iterations without any fault
+  (`executeInternal_total`) under the run hypothesis `RunFine`, decided input by input by `runFineB`
+  (`runFineB_sound`); which corner-loop call sites can never see `Inside` and which see it exactly when a crossing
+  is missed (`corner_loop_targets_never_inside`, `corner_loop_inside_reachable`); for sign-exact arithmetic no entering
+  crossing is ever missed (`entering_crossing_found_exact`, geometric completeness of `GetIntersection` from inside) and
+  therefore no corner loop ever gets the target `Inside` (`corner_loop_targets_never_inside_exact`);
+  `inside_path_unchanged`, `outside_path_corners_or_nothing`.
+Not modelled, hence not proved: `CheckEdges`, `TidyEdges`, `GetPath`.  The winding-number statement of the property is
+checked on the real code by the exact judge `RECTCLIPCHECK` (Driver/C08.lean) only.
 -/
 import ClipperVerif.Lemmas.RectClip
+import ClipperVerif.Lemmas.RectClipAuto
+import ClipperVerif.Lemmas.RectClipEnter
+import ClipperVerif.Lemmas.PipRefine
+import ClipperVerif.Props.C09
 namespace Clipper.Props.C08
-open Clipper Clipper.Model.RC Clipper.Lemmas.RC
+open Clipper Clipper.Model.RC Clipper.Lemmas.RC Clipper.Lemmas.RCA Clipper.Lemmas.RCE
 
 /-! ### the generated `Location` helpers -/
 
@@ -288,5 +304,482 @@ theorem shortcut_sound (r : Rect) (path : Path) (hre : r.isEmpty = false) (hlen 
 example : executeShortcut ⟨0, 0, 10, 10⟩ [⟨1, 1⟩, ⟨9, 2⟩, ⟨5, 10⟩] = some [[⟨1, 1⟩, ⟨9, 2⟩, ⟨5, 10⟩]] ∧
     executeShortcut ⟨0, 0, 10, 10⟩ [⟨11, 1⟩, ⟨19, 2⟩, ⟨15, 10⟩] = some [] ∧
     executeShortcut ⟨0, 0, 10, 10⟩ [⟨-1, 1⟩, ⟨19, 2⟩, ⟨15, 10⟩] = none := by decide
+
+
+/-! ## the location / corner automaton of `RectClip64::ExecuteInternal`
+
+Model: `Model/RectClipAuto.lean` (`executeInternalA A pip r path`): the list of `Add` calls, each tagged with its origin,
+`start_locs_` and the final values of the locals, for an abstract arithmetic `A : Arith` (`CrossProduct` signs,
+`GetSegmentIntersectPt`) and an abstract `PointInPolygon`.  `Execute` calls `ExecuteInternal` only for a non-empty
+rectangle; that is the hypothesis `r.isEmpty = false` below. -/
+
+/-- **`added_points_in_rect`, provenance part.**  Every point passed to `Add` is (`AGood`)
+* `vertex`: the path vertex `path[k]`, and it lies in the closed rectangle, or
+* `corner`: one of the four rectangle corners, or
+* `cross`: the point a *successful* `GetIntersection` call reported for the segment ending in `path[k]`, or
+* `thru1 f`: the point the second `GetIntersection` call of a passing-right-through step left in `ip2`; `f` is the
+  result of that call, which the C++ ignores.
+Holds for every arithmetic, every `PointInPolygon` and every path. -/
+theorem added_points_provenance (A : Arith) (pip : Pt → Path → Option PipResult) (r : Rect) (path : Path)
+    (hne : r.isEmpty = false) (res : AResult) (h : executeInternalA A pip r path = .ok res) :
+    ∀ e ∈ res.es, AGood A r path e := by
+  unfold executeInternalA at h
+  cases hl : path.getLast? with
+  | none => rw [hl] at h; simp only [Except.ok.injEq] at h; subst h; simp
+  | some last =>
+    rw [hl] at h
+    simp only at h
+    cases hs : startLoc r path last with
+    | inl es =>
+      rw [hs] at h
+      simp only [Except.ok.injEq] at h
+      subst h
+      simp only
+      obtain ⟨rfl, hb⟩ := startLoc_inl hl hs
+      apply good_vtx (i := 0) (j := path.length)
+      intro k q hm
+      have m := mem_indexFrom 0 path k q hm
+      have hk : path[k]? = some q := by simpa using m.2.2
+      exact ⟨hk, onBoundary_inRect (hb q (List.mem_of_getElem? hk)) hne, by omega, by omega⟩
+    | inr loc0 =>
+      rw [hs] at h
+      simp only at h
+      cases hlo : aloop A r path (afuel path) ⟨0, loc0, .inside, .inside⟩ with
+      | error f => rw [hlo] at h; cases h
+      | ok o =>
+        rw [hlo] at h
+        simp only at h
+        cases hfin : afinish pip r path loc0 o with
+        | error f => rw [hfin] at h; cases h
+        | ok fin =>
+          rw [hfin] at h
+          simp only [Except.ok.injEq] at h
+          subst h
+          exact all_append (aloop_good A r path _ _ o hlo) (afinish_good pip r path loc0 o fin hfin)
+
+/-- The second `GetIntersection` call of every passing-right-through step of the run — whose result the C++
+ignores — found the first crossing (same hypothesis as `Props.C09.NoLostCrossing`). -/
+def NoLostCrossingA (A : Arith) (pip : Pt → Path → Option PipResult) (r : Rect) (path : Path) : Prop :=
+  ∀ res, executeInternalA A pip r path = .ok res → ∀ e ∈ res.es, e.kind ≠ .thru1 false
+
+theorem corner_inRect {r : Rect} (hne : r.isEmpty = false) {p : Pt} (h : p ∈ r.asPath) : inRect r p = true := by
+  unfold Rect.isEmpty at hne
+  simp only [Bool.or_eq_false_iff, decide_eq_false_iff_not] at hne
+  simp only [Rect.asPath, List.mem_cons, List.not_mem_nil, or_false] at h
+  rw [inRect_iff]
+  rcases h with rfl | rfl | rfl | rfl <;> simp only [Rect.c0, Rect.c1, Rect.c2, Rect.c3] <;> omega
+
+theorem agood_inR {A : Arith} {r R : Rect} {path : Path} (hne : r.isEmpty = false) (hce : CrossZeroExact A)
+    (hi : IsectIn A R) (hsub : Subrect r R) {e : AEmit} (hg : AGood A r path e) (hl : e.kind ≠ .thru1 false) :
+    inRect R e.pt = true := by
+  unfold AGood at hg
+  split at hg
+  · exact inRect_mono hsub hg.2
+  · exact inRect_mono hsub (corner_inRect hne hg)
+  · obtain ⟨cur, prv, loc, _, _, h1, h2⟩ := hg
+    rw [← h2]; exact getIntersection_inR hne hce hi hsub _ _ _ _ h1
+  · rename_i f hk
+    obtain ⟨cur, prv, loc, _, _, h1, h2⟩ := hg
+    cases f with
+    | false => exact absurd hk hl
+    | true => rw [← h2]; exact getIntersection_inR hne hce hi hsub _ _ _ _ h1
+
+/-- **`added_points_in_rect`.**  Every point passed to `Add` lies in the closed rectangle `R ⊇ rect` into which
+`GetSegmentIntersectPt` delivers its points (`R = rect` for an exact routine, `rect` widened by one unit for the real
+one), provided `CrossProduct(a, b, c) == 0` is decided exactly when `b c` is axis-parallel and no first crossing of
+a through-going segment is lost.  The last hypothesis is necessary: `raw_ring_needs_hyp`. -/
+theorem added_points_in_rect (A : Arith) (pip : Pt → Path → Option PipResult) (r R : Rect) (path : Path)
+    (hne : r.isEmpty = false) (hce : CrossZeroExact A) (hi : IsectIn A R) (hsub : Subrect r R)
+    (hnl : NoLostCrossingA A pip r path) (res : AResult) (h : executeInternalA A pip r path = .ok res) :
+    ∀ e ∈ res.es, inRect R e.pt = true :=
+  fun e he => agood_inR hne hce hi hsub (added_points_provenance A pip r path hne res h e he) (hnl res h e he)
+
+theorem agood_new {A : Arith} {r : Rect} {path : Path} (Q : Pt → Prop) (hQ : EdgeSat A r Q) {e : AEmit}
+    (hg : AGood A r path e) (hl : e.kind ≠ .thru1 false) : e.pt ∈ path ∨ Q e.pt := by
+  have hQ' : EdgeSat A r (fun q => q ∈ path ∨ Q q) :=
+    ⟨fun c hc => Or.inr (hQ.1 c hc), fun a b c d q he hq => Or.inr (hQ.2 a b c d q he hq)⟩
+  unfold AGood at hg
+  split at hg
+  · exact Or.inl (List.mem_of_getElem? hg.1)
+  · exact Or.inr (hQ.1 _ hg)
+  · obtain ⟨cur, prv, loc, hc, hp, h1, h2⟩ := hg
+    rw [← h2]
+    exact getIntersection_sat _ hQ' (Or.inl (List.mem_of_getElem? hc)) (Or.inl (prevPt_mem hp)) loc _ h1
+  · rename_i f hk
+    obtain ⟨cur, prv, loc, hc, hp, h1, h2⟩ := hg
+    cases f with
+    | false => exact absurd hk hl
+    | true =>
+      rw [← h2]
+      exact getIntersection_sat _ hQ' (Or.inl (prevPt_mem hp)) (Or.inl (List.mem_of_getElem? hc)) loc _ h1
+
+/-- **`new_vertices_on_boundary`.**  Let `Q` be any property that holds for the four rectangle corners and for every
+point `GetSegmentIntersectPt` computes against a rectangle edge (`EdgeSat`; e.g. `Q` = "on the boundary" for an exact
+routine, "within one unit of the boundary" for the real one).  Then every point passed to `Add` that is not an input
+vertex satisfies `Q` — provided no first crossing of a through-going segment is lost. -/
+theorem new_vertices_on_boundary (A : Arith) (pip : Pt → Path → Option PipResult) (r : Rect) (path : Path)
+    (Q : Pt → Prop) (hne : r.isEmpty = false) (hQ : EdgeSat A r Q) (hnl : NoLostCrossingA A pip r path)
+    (res : AResult) (h : executeInternalA A pip r path = .ok res) :
+    ∀ e ∈ res.es, e.pt ∈ path ∨ Q e.pt :=
+  fun e he => agood_new Q hQ (added_points_provenance A pip r path hne res h e he) (hnl res h e he)
+
+theorem foldl_addRing_mem (p : Pt) : ∀ (l acc : List Pt), p ∈ l.foldl addRing acc → p ∈ acc ∨ p ∈ l := by
+  intro l
+  induction l with
+  | nil => intro acc h; exact Or.inl h
+  | cons a l ih =>
+    intro acc h
+    simp only [List.foldl_cons] at h
+    rcases ih _ h with h | h
+    · cases acc with
+      | nil => simp only [addRing, List.mem_singleton] at h; exact Or.inr (by simp [h])
+      | cons last tl =>
+        simp only [addRing] at h
+        split at h
+        · exact Or.inl h
+        · rcases List.mem_cons.mp h with h | h
+          · exact Or.inr (by simp [h])
+          · exact Or.inl h
+    · exact Or.inr (by simp [h])
+
+/-- every point of the raw result ring was passed to `Add` -/
+theorem mem_ringOf {es : List AEmit} {p : Pt} (h : p ∈ ringOf es) : ∃ e ∈ es, e.pt = p := by
+  unfold ringOf at h
+  rcases foldl_addRing_mem p _ _ (List.mem_reverse.mp h) with h | h
+  · simp at h
+  · simpa using h
+
+/-- **The raw result ring** (`results_[0]` when `ExecuteInternal` returns, before `CheckEdges` / `TidyEdges`) lies in
+the closed rectangle `R`, and each of its vertices is an input vertex or lies on the boundary of the rectangle —
+for an arithmetic whose intersection points lie on the boundary of `rect` (`EdgeSat … OnBoundary`, then `R = rect`
+does), exact zero tests on axis-parallel edges, and no lost crossing. -/
+theorem raw_ring_in_rect (A : Arith) (pip : Pt → Path → Option PipResult) (r R : Rect) (path : Path)
+    (hne : r.isEmpty = false) (hce : CrossZeroExact A) (hi : IsectIn A R) (hsub : Subrect r R)
+    (hQ : EdgeSat A r (OnBoundary r)) (hnl : NoLostCrossingA A pip r path)
+    (res : AResult) (h : executeInternalA A pip r path = .ok res) :
+    ∀ p ∈ ringOf res.es, inRect R p = true ∧ (p ∈ path ∨ OnBoundary r p) := by
+  intro p hp
+  obtain ⟨e, he, rfl⟩ := mem_ringOf hp
+  exact ⟨added_points_in_rect A pip r R path hne hce hi hsub hnl res h e he,
+    new_vertices_on_boundary A pip r path _ hne hQ hnl res h e he⟩
+
+/-- exact `PointInPolygon` (the model of property C18) as the `pip` parameter -/
+def pipX (p : Pt) (poly : Path) : Option PipResult := Clipper.Model.pointInPolygonX p poly
+
+/-- the hypotheses of `raw_ring_in_rect` are satisfiable on a run with a through-going segment, an entering and an
+exiting one (arithmetic: exact signs, every intersection "computed" as the corner `c0`) -/
+example : let A := Props.C09.exampleArith ⟨0, 0, 10, 10⟩
+    CrossZeroExact A ∧ IsectIn A ⟨0, 0, 10, 10⟩ ∧ EdgeSat A ⟨0, 0, 10, 10⟩ (OnBoundary ⟨0, 0, 10, 10⟩) ∧
+    NoLostCrossingA A pipX ⟨0, 0, 10, 10⟩ [⟨-5, 5⟩, ⟨15, 7⟩, ⟨3, 3⟩] ∧
+    (executeInternalA A pipX ⟨0, 0, 10, 10⟩ [⟨-5, 5⟩, ⟨15, 7⟩, ⟨3, 3⟩]).toOption.map (·.es.map (·.kind)) =
+      some [.cross, .thru1 true, .corner, .cross, .vertex] := by
+  refine ⟨?_, ?_, ⟨?_, ?_⟩, ?_, by decide⟩
+  · intro a b c _; simp [Props.C09.exampleArith, Int.sign_eq_zero_iff_zero]
+  · intro a b c d q h; simp [Props.C09.exampleArith] at h; subst h; decide
+  · intro c hc
+    simp only [Rect.asPath, List.mem_cons, List.not_mem_nil, or_false] at hc
+    rcases hc with rfl | rfl | rfl | rfl <;> simp [OnBoundary, Rect.c0, Rect.c1, Rect.c2, Rect.c3]
+  · intro a b c d q _ h; simp [Props.C09.exampleArith] at h; subst h; simp [OnBoundary, Rect.c0]
+  · intro res hres e he
+    have : (executeInternalA (Props.C09.exampleArith ⟨0, 0, 10, 10⟩) pipX ⟨0, 0, 10, 10⟩ [⟨-5, 5⟩, ⟨15, 7⟩, ⟨3, 3⟩]).toOption.map
+        (·.es.all (fun e => e.kind != .thru1 false)) = some true := by decide
+    rw [hres] at this
+    simp only [Except.toOption, Option.map_some, Option.some.injEq, List.all_eq_true, bne_iff_ne] at this
+    exact this e he
+
+/-! ### `NoLostCrossingA` is necessary (known finding kf.lost_crossing, RectClip variant)
+
+Real input (harness labels `kf.lost_crossing.spec`, `kf.lost_crossing.auto.model`): `RectClip(Rect64(347, 434, 67109211,
+67109298), {(-28115609, 29720495), (95231410, -100663865), (1000, 1000)})`: the raw ring contains `(0,0)`, left in
+`ip2` by the second `GetIntersection` call, whose failure `ExecuteInternal` ignores.  As in `Props.C09` the kernel
+witness uses an arithmetic that is exact except for the one product the `double` computation rounds to zero. -/
+
+/-- the cross product of `Props.C09.witnessArith` (exact signs except `CrossProduct(c0, b, a)`, rounded to zero as the
+`double` computation does); every intersection point is "computed" as the corner `c0`, a point of the rectangle -/
+def witnessArithA : Arith := ⟨Props.C09.witnessArith.cross, fun _ _ _ _ => some Props.C09.wRect.c0⟩
+
+/-- **Negation of `added_points_in_rect` without `NoLostCrossingA`.**  The arithmetic satisfies the other hypotheses
+(and `RunFine`, see `raw_ring_needs_hyp_regular`), yet the raw ring contains `(0,0)`, outside `[347, 67109211] × [434, 67109298]`. -/
+theorem raw_ring_needs_hyp :
+    CrossZeroExact witnessArithA ∧ IsectIn witnessArithA Props.C09.wRect ∧
+    (executeInternalA witnessArithA pipX Props.C09.wRect
+        [Props.C09.wA, Props.C09.wB, ⟨1000, 1000⟩]).toOption.map (fun res => ringOf res.es) =
+      some [⟨347, 434⟩, ⟨0, 0⟩, ⟨347, 434⟩, ⟨1000, 1000⟩] ∧
+    inRect Props.C09.wRect ⟨0, 0⟩ = false := by
+  refine ⟨fun a b c h => Props.C09.witnessArith_crossZeroExact a b c h, ?_, by decide, by decide⟩
+  intro a b c d q h
+  simp only [witnessArithA, Option.some.injEq] at h
+  subst h; decide
+
+/-! ### termination and index safety -/
+
+/-- **No `path[i]` is read out of range**, whatever the arithmetic: the only faults the model can raise are a
+rectangle-corner index / a corner loop that cannot end (`corner`), a faulting `PointInPolygon` (`pip`), and
+exhausted fuel. -/
+theorem executeInternal_no_path_fault (A : Arith) (pip : Pt → Path → Option PipResult) (r : Rect) (path : Path) :
+    executeInternalA A pip r path ≠ .error .path := by
+  intro h
+  unfold executeInternalA at h
+  split at h
+  · cases h
+  · split at h
+    · cases h
+    · split at h
+      · rename_i f hf
+        simp only [Except.error.injEq] at h
+        subst h
+        rcases aloop_fault A r path _ _ _ hf with h | h <;> cases h
+      · split at h
+        · rename_i f hf
+          simp only [Except.error.injEq] at h
+          subst h
+          rcases afinish_fault pip r path _ _ _ hf with h | h <;> cases h
+        · cases h
+
+/-- Run hypothesis of the termination theorem: `StepFine` (no missed crossing; a crossing found on an iteration that
+does not advance `i` leaves a location from which the next iteration advances) in every control state the main loop
+goes through.  These are facts about `GetIntersection` under the given arithmetic which a geometrically complete
+intersection test has; they are not proved here for any arithmetic, but decided input by input (`runFineB`). -/
+def RunFine (A : Arith) (r : Rect) (path : Path) : Prop :=
+  ∀ last loc0, path.getLast? = some last → startLoc r path last = .inr loc0 →
+    ∀ c, Reach A r path ⟨0, loc0, .inside, .inside⟩ c → c.i < path.length → StepFine A r path c
+
+/-- the executable check `runFineB` (driver command `RCAUTOHYP`, evaluated on every generated input) is sound -/
+theorem runFineB_sound (A : Arith) (r : Rect) (path : Path) (h : runFineB A r path = true) : RunFine A r path := by
+  intro last loc0 hl hs c hr hi
+  unfold runFineB at h
+  rw [hl] at h
+  simp only [hs] at h
+  exact fineLoop_sound A r path _ _ h c hr hi
+
+/-- the run of `raw_ring_needs_hyp` is regular: the lost crossing is not a termination problem -/
+theorem raw_ring_needs_hyp_regular :
+    RunFine witnessArithA Props.C09.wRect [Props.C09.wA, Props.C09.wB, ⟨1000, 1000⟩] :=
+  runFineB_sound _ _ _ (by decide)
+
+/-- **`executeInternal_total`** (C10 obligations of this code).  Under `RunFine` and a total `PointInPolygon`,
+`ExecuteInternal` returns: the main loop ends within `2 * path.size() + 2` iterations (every iteration either advances
+`i` or leaves a location from which the next one does), every `do { … } while (prev != loc)` corner loop ends within 4
+iterations, no `rect_as_path_[…]` or `path[…]` index is out of range, and `start_locs_` never contains `Inside`.
+Without `RunFine` the statement is false for an abstract arithmetic (`corner_loop_inside_reachable`); see
+`executeInternal_no_path_fault` for the part that holds unconditionally. -/
+theorem executeInternal_total (A : Arith) (pip : Pt → Path → Option PipResult) (r : Rect) (path : Path)
+    (hfine : RunFine A r path) (hpip : ∀ q poly, (pip q poly).isSome = true) :
+    ∃ res, executeInternalA A pip r path = .ok res ∧ ∀ l ∈ res.startLocs, l ≠ .inside := by
+  unfold executeInternalA
+  cases hl : path.getLast? with
+  | none => exact ⟨_, rfl, by simp⟩
+  | some last =>
+    simp only
+    cases hs : startLoc r path last with
+    | inl es => exact ⟨_, rfl, by simp⟩
+    | inr loc0 =>
+      simp only
+      obtain ⟨o, ho, hsl⟩ := aloop_total A r path ⟨0, loc0, .inside, .inside⟩ (hfine last loc0 hl hs)
+        (afuel path) ⟨0, loc0, .inside, .inside⟩ Reach.init (Nat.zero_le _) (Or.inl (by simp [afuel]))
+      rw [ho]
+      simp only
+      obtain ⟨fin, hfin⟩ := afinish_total pip r path loc0 o hpip hsl
+      rw [hfin]
+      exact ⟨_, rfl, hsl⟩
+
+/-- `PointInPolygon` is total for every cross-product function, in particular for the exact and for the `double` one -/
+theorem pipG_total (cp : Pt → Pt → Pt → Int) (p : Pt) (poly : Path) :
+    (Clipper.Model.pointInPolygonG cp p poly).isSome = true := by
+  by_cases hn : poly.length < 3
+  · simp [Clipper.Model.pointInPolygonG, hn]
+  · by_cases hfirst : Clipper.Model.findFirst p.y poly = poly.length
+    · simp [Clipper.Model.pointInPolygonG, hn, hfirst]
+    · have hlt : Clipper.Model.findFirst p.y poly < poly.length := by
+        have := Clipper.Lemmas.Geom.findFirst_le p.y poly; omega
+      rw [Clipper.Lemmas.Geom.pointInPolygonG_eq_cyc cp p poly _ (by omega) (List.getElem?_eq_getElem hlt)]
+      rfl
+
+/-- the hypotheses of `executeInternal_total` hold on a run that enters, leaves, passes right through and turns two
+corners (exact signs); the `double` instance of `PointInPolygon` used by the correspondence is total too -/
+example : RunFine (Props.C09.exampleArith ⟨0, 0, 10, 10⟩) ⟨0, 0, 10, 10⟩ [⟨-5, 5⟩, ⟨15, 7⟩, ⟨3, 3⟩, ⟨20, 20⟩, ⟨-7, 30⟩] ∧
+    (∀ q poly, (pipX q poly).isSome = true) ∧ (∀ q poly, (pipFloat q poly).isSome = true) :=
+  ⟨runFineB_sound _ _ _ (by decide), fun q poly => pipG_total _ q poly, fun q poly => pipG_total _ q poly⟩
+
+/-! ### the targets of the corner loops -/
+
+/-- **`corner_loop_targets_never_inside`.**  One iteration of the main loop, `loc`/`j` being what `GetNextLocation`
+returns, `cur = path[j]`, `prv` the vertex before it, `x` the first `GetIntersection` call.  For **every** arithmetic:
+* the corner loop of the entering branch (`do AddCorner(prev, cw) while (prev != crossing_loc)`) starts from a
+  location `≠ Inside` and has a target `≠ Inside`;
+* both two-location `AddCorner` calls of the passing-right-through branch get locations `≠ Inside`;
+* the two loops of the remaining-outside branch (`do … while (prev != loc)`) have target `loc`, and `loc == Inside`
+  there means precisely that `GetIntersection` reported "no crossing" for a segment whose end point `cur` lies
+  strictly inside the rectangle while the automaton was outside — a missed crossing, excluded by `StepFine`.
+So `corner_loop_diverges_on_inside` is unreachable exactly as long as no entering crossing is missed. -/
+theorem corner_loop_targets_never_inside (A : Arith) (r : Rect) (path : Path) (c : Ctl) (cur prv : Pt)
+    (hcur : path[(getNextLocation r path c.loc c.i).2.1]? = some cur) :
+    let loc := (getNextLocation r path c.loc c.i).1
+    let x := getIntersection A r cur prv loc ⟨0, 0⟩
+    (x.1 = true → loc = .inside → c.loc ≠ .inside ∧ x.2.1 ≠ .inside) ∧
+    (x.1 = true → loc ≠ .inside → c.loc ≠ .inside →
+      x.2.1 ≠ .inside ∧ (getIntersection A r prv cur c.loc ⟨0, 0⟩).2.1 ≠ .inside ∧
+      (getLocation r cur x.2.1).2 ≠ .inside) ∧
+    (x.1 = false → loc = .inside →
+      c.loc ≠ .inside ∧ (r.left < cur.x ∧ cur.x < r.right ∧ r.top < cur.y ∧ cur.y < r.bottom)) ∧
+    (StepFine A r path c → prevPt path (getNextLocation r path c.loc c.i).2.1 = some prv → x.1 = false →
+      loc ≠ .inside) := by
+  intro loc x
+  have hcne : loc = .inside → c.loc ≠ .inside := by
+    intro hl hc
+    have h1 : path[(getNextLocation r path .inside c.i).2.1]? = some cur := by rw [← hc]; exact hcur
+    have h2 : (getNextLocation r path c.loc c.i).1 = .inside := hl
+    rw [hc] at h2
+    exact (gnl_from_inside r path c.i cur h1).1 h2
+  refine ⟨?_, ?_, ?_, ?_⟩
+  · intro hx hl
+    exact ⟨hcne hl, (getIntersection_loc A r cur prv loc ⟨0, 0⟩).1 hx⟩
+  · intro hx hl hc
+    refine ⟨(getIntersection_loc A r cur prv loc ⟨0, 0⟩).1 hx, getIntersection_loc_ne A r prv cur c.loc ⟨0, 0⟩ hc, ?_⟩
+    exact getLocation_ne_inside_of_ready ((gnl_spec r path c.loc c.i).ready cur hcur) hl _
+  · intro _ hl
+    exact ⟨hcne hl, gnl_inside_strict r path c.loc c.i cur (hcne hl) hcur hl⟩
+  · intro hf hprv hx
+    exact ((hf cur prv hcur hprv).1 hx).1
+
+/-- **`entering_crossing_found_exact`: the missed crossing cannot happen with exact signs.**  For an arithmetic that
+reports the exact sign of every cross product (`SignExact`) and always delivers an intersection point (`IsectTotal`), a
+non-empty rectangle, a point `cur` strictly inside it and a point `prv` that is not strictly inside,
+`GetIntersection(cur, prv, Inside)` finds a crossing: one of the four `GetSegmentIntersection` calls succeeds (the
+nonlinear case analysis over the exit side is `Lemmas.RCE.exit_side`).  Together with the third clause of
+`corner_loop_targets_never_inside`: with exact signs the loops of the remaining-outside branch can get the target
+`Inside` only for a segment with *both* ends strictly inside the rectangle while the automaton believes it is outside. -/
+theorem entering_crossing_found_exact (A : Arith) (hA : SignExact A) (ht : IsectTotal A) (r : Rect)
+    (hne : r.isEmpty = false) (cur prv : Pt)
+    (hin : r.left < cur.x ∧ cur.x < r.right ∧ r.top < cur.y ∧ cur.y < r.bottom)
+    (hout : ¬ (r.left < prv.x ∧ prv.x < r.right ∧ r.top < prv.y ∧ prv.y < r.bottom)) (ip : Pt) :
+    (getIntersection A r cur prv .inside ip).1 = true := by
+  unfold Rect.isEmpty at hne
+  simp only [Bool.or_eq_false_iff, decide_eq_false_iff_not] at hne
+  exact getIntersection_from_inside hA ht ⟨by omega, by omega, hin.1, hin.2.1, hin.2.2.1, hin.2.2.2⟩ hout ip
+
+/-- the hypotheses are satisfiable: the exact-sign arithmetic of `Props.C09` -/
+example : SignExact (Props.C09.exampleArith ⟨0, 0, 10, 10⟩) ∧ IsectTotal (Props.C09.exampleArith ⟨0, 0, 10, 10⟩) := by
+  refine ⟨fun a b c => ⟨by simp [Props.C09.exampleArith, Int.sign_eq_zero_iff_zero], ?_⟩, fun a b c d => rfl⟩
+  simp only [Props.C09.exampleArith, gt_iff_lt]
+  exact Int.sign_pos_iff
+
+/-- **`corner_loop_targets_never_inside_exact`: the open question of the first round, settled for exact signs.**
+For a sign-exact arithmetic and a non-empty rectangle, in every control state the main loop of `ExecuteInternal` goes
+through (`Reach` from the start state), a failed `GetIntersection` call implies that `GetNextLocation` did not classify
+the vertex as `Inside`: the two `do … while (prev != loc)` loops of the remaining-outside branch never get the target
+`Inside`.  With the first two clauses of `corner_loop_targets_never_inside` (which hold for every arithmetic) no corner
+loop of `ExecuteInternal` ever has the target `Inside`, so `corner_loop_diverges_on_inside` is unreachable.
+(Proof: loop invariant `Lemmas.RCE.Inv` — while the automaton is outside, the vertex before `path[i]` is not strictly
+inside, or `path[i]` is strictly outside — plus `entering_crossing_found_exact`.)  For `double` arithmetic the same
+holds as long as the sign of the cross products involved is not rounded to zero, which within |coordinates| ≤ 2^40
+cannot happen for this configuration (relative gap ≥ 2^-41) and does happen from about 2^53 (report, probe). -/
+theorem corner_loop_targets_never_inside_exact (A : Arith) (hA : SignExact A) (ht : IsectTotal A) (r : Rect)
+    (hne : r.isEmpty = false) (path : Path) (last : Pt) (loc0 : Location) (hl : path.getLast? = some last)
+    (hs : startLoc r path last = .inr loc0) (c : Ctl) (hr : Reach A r path ⟨0, loc0, .inside, .inside⟩ c)
+    (cur prv : Pt) (hcur : path[(getNextLocation r path c.loc c.i).2.1]? = some cur)
+    (hprv : prevPt path (getNextLocation r path c.loc c.i).2.1 = some prv)
+    (hx : (getIntersection A r cur prv (getNextLocation r path c.loc c.i).1 ⟨0, 0⟩).1 = false) :
+    (getNextLocation r path c.loc c.i).1 ≠ .inside := by
+  intro hli
+  unfold Rect.isEmpty at hne
+  simp only [Bool.or_eq_false_iff, decide_eq_false_iff_not] at hne
+  have := no_missed_entering_exact hA ht (by omega) (by omega) (inv_init hl hs) hr hcur hprv hli ⟨0, 0⟩
+  rw [hli] at hx
+  rw [this] at hx
+  cases hx
+
+/-- the fault a run ends with, if any -/
+def faultOf : Except Fault AResult → Option Fault
+  | .ok _ => none
+  | .error f => some f
+
+/-- an arithmetic whose `CrossProduct` is always positive: `GetSegmentIntersection` never finds anything -/
+def blindArith : Arith := ⟨fun _ _ _ => 1, fun _ _ _ _ => none⟩
+
+/-- **The hypothesis is needed: with an abstract arithmetic the corner loops do get the target `Inside`.**  For the
+triangle `(-5,5) (5,5) (5,6)` and the rectangle `[0,10]²` the vertex `(5,5)` is classified `Inside`, the blind
+`GetIntersection` reports no crossing, and `do { start_locs_.emplace_back(prev); … } while (prev != Inside)` is entered:
+the model reports the fault, `RunFine` is false, and by `corner_loop_diverges_on_inside` the loop never ends whatever
+the fuel.  (With the real `double` arithmetic the same happens only outside the property's coordinate range, from
+about 2^53: see the report.) -/
+theorem corner_loop_inside_reachable :
+    faultOf (executeInternalA blindArith pipX ⟨0, 0, 10, 10⟩ [⟨-5, 5⟩, ⟨5, 5⟩, ⟨5, 6⟩]) = some .corner ∧
+    runFineB blindArith ⟨0, 0, 10, 10⟩ [⟨-5, 5⟩, ⟨5, 5⟩, ⟨5, 6⟩] = false ∧
+    ∀ cw fuel prev, startLocsLoop .inside cw fuel prev = none :=
+  ⟨by decide, by decide, corner_loop_diverges_on_inside⟩
+
+/-! ### paths that stay inside, paths that never touch -/
+
+/-- **`inside_path_unchanged`** (automaton level).  A non-empty path all of whose vertices lie in the closed
+rectangle is passed to `Add` vertex by vertex, in order, and nothing else is (no corner, no crossing, `start_locs_`
+stays empty) — for every arithmetic, which is never consulted. -/
+theorem inside_path_unchanged (A : Arith) (pip : Pt → Path → Option PipResult) (r : Rect) (path : Path)
+    (hne : path ≠ []) (hin : ∀ p ∈ path, inRect r p = true) :
+    ∃ res, executeInternalA A pip r path = .ok res ∧ res.es = vtxEmits (indexFrom 0 path) ∧
+      res.es.map (·.pt) = path ∧ res.startLocs = [] ∧ res.firstCross = .inside := by
+  have hmap : (vtxEmits (indexFrom 0 path)).map (·.pt) = path := by
+    have := indexFrom_map_snd 0 path
+    simpa [vtxEmits, List.map_map, Function.comp_def] using this
+  unfold executeInternalA
+  cases hl : path.getLast? with
+  | none => rw [List.getLast?_eq_none_iff] at hl; exact absurd hl hne
+  | some last =>
+    simp only
+    rcases startLoc_inside r path last (List.mem_of_getLast? hl) hin with hs | hs
+    · rw [hs]; exact ⟨_, rfl, rfl, hmap, rfl, rfl⟩
+    · rw [hs]
+      simp only [afuel]
+      rw [aloop_all_inside A r path hne hin]
+      simp only [afinish, if_true, ne_eq, not_true_eq_false, if_false, List.append_nil]
+      exact ⟨_, rfl, rfl, hmap, rfl, rfl⟩
+
+example : ∀ p ∈ ([⟨0, 3⟩, ⟨10, 10⟩, ⟨4, 4⟩] : Path), inRect ⟨0, 0, 10, 10⟩ p = true := by decide
+
+/-- **`outside_path_corners_or_nothing`** (automaton level).  Let no vertex of the path lie in the closed rectangle
+and let `GetIntersection` report no crossing for any of its segments.  Then `first_cross_` stays `Inside`, no point is
+added during the main loop, and the result is decided by the closing logic alone: if the path's bounding box contains
+the rectangle and `Path1ContainsPath2(path, rect)` answers `b = true`, the four corners are added — in the order
+`c0 c1 c2 c3` when `StartLocsAreClockwise(start_locs_)`, reversed otherwise — and in every other case nothing is. -/
+theorem outside_path_corners_or_nothing (A : Arith) (pip : Pt → Path → Option PipResult) (r : Rect) (path : Path)
+    (hne : r.isEmpty = false) (hpne : path ≠ []) (hout : ∀ p ∈ path, outsideLoc r p ≠ none)
+    (hmiss : ∀ cur prv loc, cur ∈ path → prv ∈ path → (getIntersection A r cur prv loc ⟨0, 0⟩).1 = false)
+    (b : Bool) (hb : path1ContainsPath2 pip path r.asPath = some b) :
+    ∃ res, executeInternalA A pip r path = .ok res ∧ res.firstCross = .inside ∧
+      res.es.map (·.pt) =
+        if (getBounds path).containsRect r && b then
+          (if startLocsAreClockwise res.startLocs then r.asPath else r.asPath.reverse)
+        else [] := by
+  unfold executeInternalA
+  cases hl : path.getLast? with
+  | none => exact absurd (List.getLast?_eq_none_iff.mp hl) hpne
+  | some last =>
+    simp only
+    obtain ⟨loc0, hs, hl0⟩ := startLoc_outside r hne path last (hout last (List.mem_of_getLast? hl))
+    rw [hs]
+    simp only
+    obtain ⟨o, ho, hes, hfc⟩ := aloop_outside A r path hout hmiss (afuel path) ⟨0, loc0, .inside, .inside⟩ hl0 rfl rfl
+      (by simp only [afuel]; omega)
+    rw [ho]
+    simp only
+    unfold afinish
+    simp only [hfc, if_true, ne_eq, hl0, not_false_eq_true, hb, hes, List.nil_append]
+    cases hc : (getBounds path).containsRect r
+    · simp only [Bool.false_eq_true, if_false, Bool.false_and]
+      exact ⟨_, rfl, rfl, rfl⟩
+    · cases b
+      · simp only [if_true, Bool.and_false, Bool.false_eq_true, if_false]
+        exact ⟨_, rfl, rfl, rfl⟩
+      · simp only [if_true, Bool.and_true]
+        refine ⟨_, rfl, rfl, ?_⟩
+        simp only [cornerEmits, List.map_map, Function.comp_def, List.map_id']
+
+/-- the hypotheses of `outside_path_corners_or_nothing` hold for a square around the rectangle (exact signs): the
+result is the rectangle, clockwise like the path -/
+example : (∀ p ∈ ([⟨-5, -5⟩, ⟨15, -5⟩, ⟨15, 15⟩, ⟨-5, 15⟩] : Path), outsideLoc ⟨0, 0, 10, 10⟩ p ≠ none) ∧
+    (executeInternalA (Props.C09.exampleArith ⟨0, 0, 10, 10⟩) (fun _ _ => some .isInside) ⟨0, 0, 10, 10⟩
+      [⟨-5, -5⟩, ⟨15, -5⟩, ⟨15, 15⟩, ⟨-5, 15⟩]).toOption.map (fun res => (res.es.map (·.pt), res.startLocs)) =
+      some ([⟨0, 0⟩, ⟨10, 0⟩, ⟨10, 10⟩, ⟨0, 10⟩], [.left, .top, .right, .bottom]) := by
+  refine ⟨by decide, by decide⟩
 
 end Clipper.Props.C08
